@@ -10,6 +10,7 @@ import (
 	"verifh/world"
 
 	"0chain.net/chaincore/block"
+	"0chain.net/chaincore/chain"
 	"0chain.net/chaincore/node"
 	"0chain.net/core/viper"
 )
@@ -73,148 +74,235 @@ func runC42(run *mon.Run, thorough bool) {
 				run.Count("insertion_histories_with_readded_members", 1)
 			}
 		}
-		for _, construction := range []string{"newnode", "json"} {
-			// one magic block per insertion order, each in force for its own round
-			type mbr struct {
-				round int64
-				pool  *node.Pool
-			}
-			var mbs []mbr
-			for _, o := range orders {
-				pool := buildPool(sub, o, node.NodeTypeSharder)
-				if construction == "json" {
-					// the way a magic block arrives from another node / the store: JSON decode of the pool
-					raw, err := json.Marshal(pool)
-					if err != nil {
-						panic(err)
-					}
-					// re-order the JSON object members in insertion order o (decoding order must not matter either)
-					dec := node.NewPool(node.NodeTypeSharder)
-					if err := json.Unmarshal(raw, dec); err != nil {
-						panic(fmt.Sprintf("pool json: %v", err))
-					}
-					pool = dec
+		// One magic block per (construction, insertion order), each in force for its own round. A construction is either a way to
+		// build the pool from scratch ("newnode", "json") or a copy of such a pool made by the real copying code; a copy names its source.
+		type mbr struct {
+			construction string
+			orderIdx     int
+			round        int64
+			pool         *node.Pool
+		}
+		var mbs []mbr
+		for _, cons := range c42Constructions {
+			for oi, o := range orders {
+				if cons.source != "" && oi >= 2 && oi < len(orders)-2 {
+					continue // copies: the first two orders and the last two (histories with re-added members)
 				}
+				src := buildPool(sub, o, node.NodeTypeSharder)
 				mb := block.NewMagicBlock()
 				mb.Miners = w.MB.Miners
-				mb.Sharders = pool
+				mb.Sharders = src
 				mb.StartingRound = nextStart
 				mb.MagicBlockNumber = nextStart
 				mb.Hash = fmt.Sprintf("c42-mb-%d", nextStart)
+				mb = cons.make(c, mb)
+				run.Count("pools_built["+cons.name+"]", 1)
+				if got := strings.Join(sortedCopy(mb.Sharders.Keys()), ","); got != strings.Join(sortedCopy(idsOf(sub)), ",") {
+					violate(run, "C42:construction-loses-sharders", fmt.Sprintf("construction %s of a pool of %d sharders holds %d", cons.name, n, mb.Sharders.Size()),
+						map[string]interface{}{"n": n, "order": o, "construction": cons.name})
+					continue
+				}
 				c.SetMagicBlock(mb)
-				mbs = append(mbs, mbr{nextStart + 10, pool})
+				mbs = append(mbs, mbr{cons.name, oi, nextStart + 10, mb.Sharders})
 				nextStart += 100
 			}
-			ks := []int{0, 1, n, n + 1}
-			if n > 2 {
-				ks = append(ks, 2+rnd.Intn(n-2))
-			}
-			if n > 5 {
-				ks = append(ks, n/2)
-			}
-			for _, k := range ks {
-				checkpoint(run)
-				setK(k)
-				for h := 0; h < hashesPer; h++ {
-					raw := make([]byte, 32)
+		}
+		ks := []int{0, 1, n, n + 1}
+		if n > 2 {
+			ks = append(ks, 2+rnd.Intn(n-2))
+		}
+		if n > 5 {
+			ks = append(ks, n/2)
+		}
+		for _, k := range ks {
+			checkpoint(run)
+			setK(k)
+			for h := 0; h < hashesPer; h++ {
+				raw := make([]byte, 32)
+				for i := range raw {
+					raw[i] = byte(rnd.U64())
+				}
+				if h%5 == 4 { // low-entropy hashes produce many score ties
 					for i := range raw {
-						raw[i] = byte(rnd.U64())
+						raw[i] = byte(0xff * (h % 2))
 					}
-					if h%5 == 4 { // low-entropy hashes produce many score ties
-						for i := range raw {
-							raw[i] = byte(0xff * (h % 2))
+					raw[h%32] ^= byte(1 << uint(h%8))
+				}
+				hash := hex.EncodeToString(raw)
+				firstSet := map[string]string{}   // construction -> set of its first insertion order
+				firstIDs := map[string][]string{} // the same as ids
+				firstOrd := map[string]int{}
+				for _, m := range mbs {
+					construction, oi := m.construction, m.orderIdx
+					b := block.NewBlock(c.GetKey(), m.round)
+					b.Hash = hash
+					var ids, idsFromHash, idsCan []string
+					var listed string
+					for _, nd := range m.pool.CopyNodes() {
+						if c.IsBlockSharder(b, nd) {
+							ids = append(ids, nd.GetKey())
 						}
-						raw[h%32] ^= byte(1 << uint(h%8))
+						if c.IsBlockSharderFromHash(m.round, hash, nd) {
+							idsFromHash = append(idsFromHash, nd.GetKey())
+						}
+						ok, nodes := c.CanShardBlockWithReplicators(m.round, hash, nd)
+						if ok {
+							idsCan = append(idsCan, nd.GetKey())
+						}
+						var l []string
+						for _, x := range nodes {
+							l = append(l, x.GetKey())
+						}
+						ls := strings.Join(sortedCopy(l), ",")
+						if listed == "" {
+							listed = ls
+						} else if listed != ls {
+							listed = "INCONSISTENT:" + listed + " vs " + ls
+						}
 					}
-					hash := hex.EncodeToString(raw)
-					var firstSet string
-					var firstIDs []string
-					for oi, m := range mbs {
-						b := block.NewBlock(c.GetKey(), m.round)
-						b.Hash = hash
-						var ids, idsFromHash, idsCan []string
-						var listed string
-						for _, nd := range m.pool.CopyNodes() {
-							if c.IsBlockSharder(b, nd) {
-								ids = append(ids, nd.GetKey())
-							}
-							if c.IsBlockSharderFromHash(m.round, hash, nd) {
-								idsFromHash = append(idsFromHash, nd.GetKey())
-							}
-							ok, nodes := c.CanShardBlockWithReplicators(m.round, hash, nd)
-							if ok {
-								idsCan = append(idsCan, nd.GetKey())
-							}
-							var l []string
-							for _, x := range nodes {
-								l = append(l, x.GetKey())
-							}
-							ls := strings.Join(sortedCopy(l), ",")
-							if listed == "" {
-								listed = ls
-							} else if listed != ls {
-								listed = "INCONSISTENT:" + listed + " vs " + ls
-							}
+					run.Eval(1)
+					set := strings.Join(sortedCopy(ids), ",")
+					replay := map[string]interface{}{"n": n, "k": k, "hash": hash, "order": orders[oi], "construction": construction, "sharder_ids": shorts(idsOf(sub))}
+					// the three entry points describe one set
+					run.Count("entry_points_agree", 1)
+					if set != strings.Join(sortedCopy(idsFromHash), ",") || set != strings.Join(sortedCopy(idsCan), ",") || (k <= n && set != listed) {
+						violate(run, "C42:entry-points-disagree", fmt.Sprintf("n=%d k=%d hash=%s IsBlockSharder=%v FromHash=%v CanShard=%v listed=%s", n, k, short(hash), shorts(ids), shorts(idsFromHash), shorts(idsCan), listed), replay)
+					}
+					// size
+					switch {
+					case k <= 0:
+						run.Count("k0_everyone", 1)
+						if len(ids) != n || listed != strings.Join(sortedCopy(idsOf(sub)), ",") {
+							violate(run, "C42:replication-disabled-not-everyone", fmt.Sprintf("n=%d k=%d responsible=%d listed=%s", n, k, len(ids), listed), replay)
 						}
-						run.Eval(1)
-						set := strings.Join(sortedCopy(ids), ",")
-						replay := map[string]interface{}{"n": n, "k": k, "hash": hash, "order": orders[oi], "construction": construction, "sharder_ids": shorts(idsOf(sub))}
-						// the three entry points describe one set
-						run.Count("entry_points_agree", 1)
-						if set != strings.Join(sortedCopy(idsFromHash), ",") || set != strings.Join(sortedCopy(idsCan), ",") || (k <= n && set != listed) {
-							violate(run, "C42:entry-points-disagree", fmt.Sprintf("n=%d k=%d hash=%s IsBlockSharder=%v FromHash=%v CanShard=%v listed=%s", n, k, short(hash), shorts(ids), shorts(idsFromHash), shorts(idsCan), listed), replay)
+					case k <= n:
+						run.Count("size_at_least_k", 1)
+						if len(ids) < k {
+							violate(run, "C42:fewer-than-configured-replicators", fmt.Sprintf("n=%d k=%d hash=%s responsible=%v", n, k, short(hash), shorts(ids)), replay)
 						}
-						// size
-						switch {
-						case k <= 0:
-							run.Count("k0_everyone", 1)
-							if len(ids) != n || listed != strings.Join(sortedCopy(idsOf(sub)), ",") {
-								violate(run, "C42:replication-disabled-not-everyone", fmt.Sprintf("n=%d k=%d responsible=%d listed=%s", n, k, len(ids), listed), replay)
-							}
-						case k <= n:
-							run.Count("size_at_least_k", 1)
-							if len(ids) < k {
-								violate(run, "C42:fewer-than-configured-replicators", fmt.Sprintf("n=%d k=%d hash=%s responsible=%v", n, k, short(hash), shorts(ids)), replay)
-							}
-							if len(ids) > k {
-								run.Count("obs_score_ties_extend_set", 1)
-							}
-						default:
-							run.Count("obs_k_gt_n", 1)
-							if len(ids) == 0 {
-								run.Count("obs_k_gt_n_nobody_responsible", 1)
-							}
+						if len(ids) > k {
+							run.Count("obs_score_ties_extend_set", 1)
 						}
-						// identical across insertion orders
-						if oi == 0 {
-							firstSet, firstIDs = set, ids
+					default:
+						run.Count("obs_k_gt_n", 1)
+						if len(ids) == 0 {
+							run.Count("obs_k_gt_n_nobody_responsible", 1)
+						}
+					}
+					// identical across insertion orders
+					_, seen := firstSet[construction]
+					if !seen {
+						firstSet[construction], firstIDs[construction], firstOrd[construction] = set, ids, oi
+					} else {
+						run.Count("order_independent_set", 1)
+						if set != firstSet[construction] {
+							violate(run, "C42:order-dependent-set", fmt.Sprintf("n=%d k=%d hash=%s construction %s: order %v -> %v, order %v -> %v", n, k, short(hash), construction, orders[firstOrd[construction]], shorts(sortedCopy(firstIDs[construction])), orders[oi], shorts(sortedCopy(ids))), replay)
+						}
+					}
+					// a copy of a pool (the same sharder set, held by the same or by another node) describes the same set as the pool it was made from
+					if src := c42SourceOf(construction); src != "" {
+						run.Count("copy_same_set_as_source", 1)
+						run.Count("copy_same_set_as_source["+construction+"]", 1)
+						if set != firstSet[src] {
+							replay["source_construction"] = src
+							violate(run, "C42:copy-of-pool-changes-set", fmt.Sprintf("n=%d k=%d hash=%s: the pool built by %s -> %v, its copy made by %s -> %v (same sharders, same block hash)", n, k, short(hash), src, shorts(sortedCopy(firstIDs[src])), construction, shorts(sortedCopy(ids))), replay)
+						}
+					} else if construction != "newnode" && k >= 1 && k <= n {
+						// observation only: pools decoded from bytes versus pools made by node.NewNode
+						if set == firstSet["newnode"] {
+							run.Count("obs_decoded_pool_same_set_as_newnode_pool", 1)
 						} else {
-							run.Count("order_independent_set", 1)
-							if set != firstSet {
-								violate(run, "C42:order-dependent-set", fmt.Sprintf("n=%d k=%d hash=%s order %v -> %v, order %v -> %v", n, k, short(hash), orders[0], shorts(sortedCopy(firstIDs)), orders[oi], shorts(sortedCopy(ids))), replay)
+							run.Count("obs_decoded_pool_other_set_than_newnode_pool", 1)
+						}
+					}
+					if !seen {
+						if construction == "json" && k >= 1 && k <= n && len(ids) == n && n > k {
+							run.Count("obs_json_decoded_pool_everyone_responsible", 1)
+						}
+						// pointer identity observation: an equal node object that is not the pool's own
+						if k >= 1 && k <= n && len(ids) > 0 && construction == "newnode" {
+							twin := mkNode(walletByID(sub, ids[0]), node.NodeTypeSharder, 1)
+							if !c.IsBlockSharder(b, twin) {
+								run.Count("obs_equal_id_other_object_not_responsible", 1)
 							}
 						}
-						if oi == 0 {
-							if construction == "json" && k >= 1 && k <= n && len(ids) == n && n > k {
-								run.Count("obs_json_decoded_pool_everyone_responsible", 1)
-							}
-							// pointer identity observation: an equal node object that is not the pool's own
-							if k >= 1 && k <= n && len(ids) > 0 {
-								twin := mkNode(walletByID(sub, ids[0]), node.NodeTypeSharder, 1)
-								if !c.IsBlockSharder(b, twin) {
-									run.Count("obs_equal_id_other_object_not_responsible", 1)
-								}
-							}
-							run.Distinct(fmt.Sprintf("n=%d k=%d size=%d %s", n, k, len(ids), construction))
-							if h == 1 && n >= 5 && k >= 2 && k <= n && construction == "newnode" {
-								run.Sample(map[string]interface{}{"n": n, "k": k, "block_hash": hash, "responsible": shorts(sortedCopy(ids)), "insertion_orders_compared": len(orders), "sharders": shorts(sortedCopy(idsOf(sub)))})
-							}
+						run.Distinct(fmt.Sprintf("n=%d k=%d size=%d %s", n, k, len(ids), construction))
+						if h == 1 && n >= 5 && k >= 2 && k <= n && construction == "newnode" {
+							run.Sample(map[string]interface{}{"n": n, "k": k, "block_hash": hash, "responsible": shorts(sortedCopy(ids)), "insertion_orders_compared": len(orders), "sharders": shorts(sortedCopy(idsOf(sub)))})
 						}
 					}
 				}
 			}
 		}
 	}
+}
+
+// c42Construction turns a magic block whose sharder pool was built with node.NewNode + Pool.AddNode into the magic block the
+// chain is given. source == "" : built from scratch; otherwise a copy, made by the real copying code, of what <source> builds.
+type c42Construction struct {
+	name   string
+	source string
+	make   func(c *chain.Chain, mb *block.MagicBlock) *block.MagicBlock
+}
+
+func c42JSONPool(p *node.Pool) *node.Pool {
+	// the way a magic block arrives from another node / the store: JSON decode of the pool
+	raw, err := json.Marshal(p)
+	if err != nil {
+		panic(err)
+	}
+	dec := node.NewPool(p.Type)
+	if err := json.Unmarshal(raw, dec); err != nil {
+		panic(fmt.Sprintf("pool json: %v", err))
+	}
+	return dec
+}
+
+var c42Constructions = []c42Construction{
+	{"newnode", "", func(c *chain.Chain, mb *block.MagicBlock) *block.MagicBlock { return mb }},
+	{"json", "", func(c *chain.Chain, mb *block.MagicBlock) *block.MagicBlock {
+		mb.Sharders = c42JSONPool(mb.Sharders)
+		return mb
+	}},
+	{"pool-clone", "newnode", func(c *chain.Chain, mb *block.MagicBlock) *block.MagicBlock {
+		mb.Sharders = mb.Sharders.Clone()
+		return mb
+	}},
+	{"magic-block-clone", "newnode", func(c *chain.Chain, mb *block.MagicBlock) *block.MagicBlock { return mb.Clone() }},
+	{"block-clone", "newnode", func(c *chain.Chain, mb *block.MagicBlock) *block.MagicBlock {
+		// the latest-finalized-magic-block path: the block carrying the magic block is cloned
+		b := block.NewBlock(c.GetKey(), mb.StartingRound)
+		b.Hash = "c42-mb-block-" + mb.Hash
+		b.MagicBlock = mb
+		return b.Clone().MagicBlock
+	}},
+	{"clone-of-clone", "newnode", func(c *chain.Chain, mb *block.MagicBlock) *block.MagicBlock { return mb.Clone().Clone() }},
+	{"json-magic-block-clone", "json", func(c *chain.Chain, mb *block.MagicBlock) *block.MagicBlock {
+		mb.Sharders = c42JSONPool(mb.Sharders)
+		return mb.Clone()
+	}},
+	{"msgp", "json", func(c *chain.Chain, mb *block.MagicBlock) *block.MagicBlock {
+		// the binary encoding of the pool (Pool.MarshalMsg / UnmarshalMsg), decoded like the JSON one
+		raw, err := mb.Sharders.MarshalMsg(nil)
+		if err != nil {
+			panic(fmt.Sprintf("pool msgp encode: %v", err))
+		}
+		dec := node.NewPool(mb.Sharders.Type)
+		if _, err := dec.UnmarshalMsg(raw); err != nil {
+			panic(fmt.Sprintf("pool msgp decode: %v", err))
+		}
+		mb.Sharders = dec
+		return mb
+	}},
+}
+
+func c42SourceOf(construction string) string {
+	for _, c := range c42Constructions {
+		if c.name == construction {
+			return c.source
+		}
+	}
+	return ""
 }
 
 func idsOf(ws []*world.Wallet) []string {
